@@ -1,36 +1,40 @@
 (* C09 — More cards never weaken a hand: seven <= every six-subset <= every five-subset.
-   Statements only; proofs in Proofs/C02.v (pure logic from C02's lower bound / attainment).
-   By C02_value, [best_value] IS what Six / Seven ranking returns, and [value5] what Five returns. *)
+   Statements only; proofs in Proofs/GenericTable.v + Proofs/C09.v. Stated on the ranking functions
+   themselves; they rest on completeness of the slot tables and on "five distinct real cards never
+   rank 0", NOT on which values the lookup tables hold (no reference evaluator is involved). *)
 From CKC Require Import Base.Prelude Spec.Layout.
-From CKC Require Import Model.Five Proofs.CombFacts Proofs.C01 Proofs.TableFacts Proofs.C02.
+From CKC Require Import Model.Five Proofs.CombFacts Proofs.GenericTable Proofs.C09.
 Open Scope N_scope.
 
-(* any m cards (5 <= m) taken from the hand, in any order, rank no better than the whole hand *)
-Theorem C09_monotone : forall n m ws s,
-  (5 <= m)%nat -> HandN n ws -> length s = m -> NoDup s -> incl s ws -> best_value ws <= best_value s.
-Proof. exact monotone_ok. Qed.
-
-(* with five cards: the sub-hand's own five-card value *)
-Theorem C09_monotone5 : forall n ws s,
-  HandN n ws -> length s = 5%nat -> NoDup s -> incl s ws -> best_value ws <= value5 s.
-Proof. exact lower_ok. Qed.
-
-(* the value equals the smallest value among the sub-hands with one card fewer *)
-Theorem C09_min_of_sub : forall n ws,
-  (5 < n)%nat -> HandN n ws ->
-  exists s, Subseq s ws /\ length s = pred n /\ best_value s = best_value ws.
-Proof. exact min_of_sub. Qed.
-
-(* in terms of the ranking functions, for seven cards and any six of them, any five of those *)
+(* seven cards, any six of them in any order, any five of those in any order *)
 Theorem C09_chain : forall chk ws7 s6 s5,
   HandN 7 ws7 -> length s6 = 6%nat -> NoDup s6 -> incl s6 ws7 ->
   length s5 = 5%nat -> NoDup s5 -> incl s5 s6 ->
   exists v7 v6 v5,
     hand_rank_value chk ws7 = Ok v7 /\ hand_rank_value chk s6 = Ok v6 /\ hand_rank_value chk s5 = Ok v5 /\
     v7 <= v6 /\ v6 <= v5.
-Proof. exact chain_ok. Qed.
+Proof. exact chain_now. Qed.
 
-Print Assumptions C09_monotone.
-Print Assumptions C09_monotone5.
-Print Assumptions C09_min_of_sub.
+(* any m of the n cards (sizes 5..7), in any order, rank no better than all n *)
+Theorem C09_monotone : forall chk n m ws s,
+  (n = 5 \/ n = 6 \/ n = 7)%nat -> (m = 5 \/ m = 6 \/ m = 7)%nat ->
+  HandN n ws -> length s = m -> NoDup s -> incl s ws ->
+  exists v w, hand_rank_value chk ws = Ok v /\ hand_rank_value chk s = Ok w /\ v <= w.
+Proof. exact monotone_now. Qed.
+
+(* the seven-card value is the smallest of its seven six-card values, a six-card value the smallest of
+   its six five-card values: some sub-hand with one card fewer attains it (and none beats it, above) *)
+Theorem C09_min_of_sub : forall chk n ws,
+  (n = 6 \/ n = 7)%nat -> HandN n ws ->
+  exists s v, Subseq s ws /\ length s = pred n /\ hand_rank_value chk ws = Ok v /\ hand_rank_value chk s = Ok v.
+Proof. exact min_now. Qed.
+
+Example C09_example :
+  hand_rank_value false [layout 0 0; layout 12 3; layout 11 3; layout 1 1; layout 10 3; layout 9 3; layout 8 3] = Ok 1 /\
+  hand_rank_value false [layout 12 3; layout 11 3; layout 1 1; layout 10 3; layout 9 3; layout 8 3] = Ok 1 /\
+  hand_rank_value false [layout 12 3; layout 11 3; layout 1 1; layout 10 3; layout 9 3] = Ok 6192.
+Proof. repeat split; vm_compute; reflexivity. Qed.
+
 Print Assumptions C09_chain.
+Print Assumptions C09_monotone.
+Print Assumptions C09_min_of_sub.
